@@ -107,12 +107,46 @@ def coq_key(ix):
 # ----------------------------------------------------------------------------------------
 # scenarios: pre = keeper ops before any signer exists; schedule items ("p", i) / ("k", op)
 # ----------------------------------------------------------------------------------------
-def hand_scenario(routes, pre, schedule, keys):
+def reply_json(rep, keys):
+    d = {k: v for k, v in rep.items() if k != "ops"}
+    d["ops"] = [op_json(o, keys) for o in rep.get("ops", [])]
+    return d
+
+
+def sched_json(it, keys):
+    if it[0] == "p":
+        return ["p", it[1]]
+    if it[0] == "w":
+        return ["w", it[1], it[2]]
+    return ["k", op_json(it[1], keys)]
+
+
+def hand_scenario(routes, pre, schedule, keys, replies=None):
+    """schedule items: ("p", i) poll signer i once | ("k", op) keeper op | ("w", i, n) poll signer i
+    until its mock host has dealt with n requests.  replies (host faults, single-signer scenarios
+    only): for signer 0, the scripted answers; their "ops" are keeper ops the mock runs before it
+    answers.  "logical" = the same schedule in the model's terms: all key reads precede the first
+    request, so ("w", 0, n) is 3 polls, followed by the mock-side ops of the answers dealt with."""
+    replies = replies or []
+    logical, emitted = [], 0
+    for it in schedule:
+        if it[0] == "w":
+            logical += [("p", it[1])] * 3
+            while emitted < min(it[2], len(replies)):
+                logical += [("k", o) for o in replies[emitted].get("ops", [])]
+                emitted += 1
+        else:
+            logical.append(it)
+    if replies and emitted == 0:
+        logical += [("p", 0)] * 3 + [("k", o) for o in replies[0].get("ops", [])]
+        emitted = 1
+    signers = [{"route": r} for r in routes]
+    if replies:
+        signers[0]["replies"] = [reply_json(r, keys) for r in replies]
     return {
-        "routes": routes, "pre": pre, "schedule": schedule, "keys": keys,
-        "json": {"kind": "hand", "pre": [op_json(o, keys) for o in pre],
-                 "signers": [{"route": r} for r in routes],
-                 "schedule": [["p", it[1]] if it[0] == "p" else ["k", op_json(it[1], keys)] for it in schedule]},
+        "routes": routes, "pre": pre, "schedule": logical, "keys": keys, "replies": replies, "replies_in_logical": emitted,
+        "json": {"kind": "hand", "pre": [op_json(o, keys) for o in pre], "signers": signers,
+                 "schedule": [sched_json(it, keys) for it in schedule]},
     }
 
 
@@ -171,13 +205,15 @@ def class_py(sc, signer, reads):
     return False
 
 
-def judge(obs, sc, signer, reads, route, window, class_flag, where):
+def judge(obs, sc, signer, reads, route, window, class_flag, where, req_ix=0):
     """the property, on one observed request; returns a failure dict or None"""
     if obs is None:
         return None          # "not at all" is always allowed by C10
     guid, mac_ix, ann_ix = obs
     keys = sc["keys"]
-    case = {"where": where, "route": route, "signer": signer, "driver_input": sc["json"]}
+    case = {"where": where, "route": route, "signer": signer, "request_index": req_ix, "driver_input": sc["json"]}
+    if req_ix > 0:
+        route = "%s (request #%d of one call)" % (route, req_ix + 1)
     impl = {"announced_guid": guid, "announced_key_index": ann_ix, "mac_verifies_under_key_index": mac_ix,
             "keys": {str(i): {"guid": g} for i, (g, _) in keys.items()}}
     if ann_ix is None:
@@ -260,6 +296,7 @@ def run(ctx):
     order = ["proxy", "goalstate", "sharedconfig", "imds", "telemetry"]
     m_reads = coq_eval(ctx, ["map (fun r => length (route_reads r)) [%s]" % "; ".join(ROUTES[r] for r in order)], name="reads")[0]
     model_reads = dict(zip(order, m_reads))
+    model_requests = dict(zip(order, coq_eval(ctx, ["map route_requests [%s]" % "; ".join(ROUTES[r] for r in order)], name="reqs")[0]))
 
     # ---------------- hand-polled scenarios ----------------
     scs = []
@@ -298,13 +335,33 @@ def run(ctx):
                 sched.append(("p", rng.randrange(n)))
         scs.append(("random", hand_scenario(routes, pre, sched, keys)))
 
+    # host faults: the mock host rejects / drops the first request of a call while the key changes
+    # between the rejection and any follow-up (mock-side: the keeper op completes before the answer
+    # is written; schedule-side: after the answer, after j further polls of the future)
+    faults = [{"status": 401}, {"status": 403}, {"status": 500}, {"status": 503}, {"mode": "close"}, {"mode": "partial"}]
+    n_before_faults = len(scs)
+    for route in hand_routes:
+        keys = fresh_keys(rng, 4)
+        keys[0] = fresh_keys(rng, 1)[1]
+        for fault in faults:
+            for ops in ([2], [None], [None, 2]):
+                pre = [0, 1]
+                scs.append(("fault", hand_scenario([route], pre, [], keys, replies=[dict(fault, ops=ops), {"status": 200}])))
+                for j in range(0, 4):
+                    scs.append(("fault", hand_scenario([route], pre, [("w", 0, 1)] + [("p", 0)] * j + [("k", o) for o in ops], keys,
+                                                       replies=[dict(fault), {"status": 200}])))
+            # two rejections in a row, a rotation during each
+            scs.append(("fault", hand_scenario([route], [1], [], keys, replies=[dict(fault, ops=[2]), dict(fault, ops=[3]), {"status": 200}])))
+            scs.append(("fault", hand_scenario([route], [1], [("w", 0, 1), ("k", 2), ("w", 0, 2), ("k", 3)], keys, replies=[dict(fault), dict(fault), {"status": 200}])))
+    n_hand_faults = len(scs) - n_before_faults
+    n_fault_calls = n_hand_faults
     ctx.log("running %d hand-polled scenarios" % len(scs))
     impl = run_driver(ctx, exe, [json.dumps(s["json"]) for _, s in scs], env, "hand-polled scenarios")
     ctx.log("hand-polled scenarios done")
     model = coq_eval(ctx, [model_expr(s) for _, s in scs], shard=60, name="hand")
 
     reads_seen = {}
-    n_signings = n_headers = n_torn = n_rot_during = 0
+    n_signings = n_headers = n_torn = n_rot_during = n_requests = 0
     samples = []
     for (kind, sc), r, m in zip(scs, impl, model):
         if not r.get("ok"):
@@ -312,19 +369,28 @@ def run(ctx):
         for ix, (route, s) in enumerate(zip(sc["routes"], r["signers"])):
             n_signings += 1
             where = "hand-polled host call"
-            if not s["completed"] or len(s["requests"]) != 1:
-                disagreements.append({"case": {"route": route, "driver_input": sc["json"]}, "model": "one request, future completes", "impl": {"completed": s["completed"], "requests": len(s["requests"])}})
-                continue
             reads = s["reads"]
-            reads_seen.setdefault(route, set()).add(reads)
-            o = observe(s["requests"][0], sc["keys"])
             window = window_keys(sc, ix)
-            cflag = class_py(sc, ix, reads)
+            if ix == 0:     # keys latched by the mock host while it dealt with requests that did arrive
+                for rep in sc["replies"][sc["replies_in_logical"]:len(s["requests"])]:
+                    window |= set(rep.get("ops", []))
+            cflag = class_py(sc, ix, reads if reads is not None else 0)
             n_rot_during += 1 if len(window) > 1 else 0
-            f = judge(o, sc, ix, reads, route, window, cflag, where)
-            if f:
-                failures.append(f)
-                n_torn += 1 if f["kind"] == "torn" else 0
+            # the property, on EVERY request this call made the host receive
+            observed = [observe(rq, sc["keys"]) for rq in s["requests"]]
+            n_requests += len(observed)
+            for q, oq in enumerate(observed):
+                f = judge(oq, sc, ix, reads, route, window, cflag if q == 0 else False, where, req_ix=q)
+                if f:
+                    failures.append(f)
+                    n_torn += 1 if f["kind"] == "torn" else 0
+            if not s["completed"] or len(s["requests"]) != model_requests[route] or reads is None:
+                disagreements.append({"case": {"route": route, "what": "requests per call (the host's answer is not an input of the signing code: no re-signed retry)", "driver_input": sc["json"]},
+                                      "model": {"requests": model_requests[route], "completes": True},
+                                      "impl": {"completed": s["completed"], "requests": len(s["requests"]), "result": s.get("result")}})
+                continue
+            reads_seen.setdefault(route, set()).add(reads)
+            o = observed[0]
             n_headers += 1 if o is not None else 0
             # correspondence with the model on this schedule
             mh, mflag = model_result(m[ix])
@@ -386,6 +452,7 @@ def run(ctx):
             disagreements.append({"case": {"route": "proxy", "driver_input": psc["json"]}, "model": "one forwarded request, 200", "impl": {"error": r.get("error"), "status": r.get("status"), "requests": len(r.get("requests", []))}})
             continue
         n_signings += 1
+        n_requests += 1
         o = observe(r["requests"][0], pkeys)
         n_headers += 1 if o is not None else 0
         window = set([pre[-1] if pre else None] + ops)
@@ -411,6 +478,32 @@ def run(ctx):
             disagreements.append({"case": {"route": "proxy", "what": "actor round trips per signing: a model outcome is never exhibited by the real handler although the keeper operation was injected at every scheduler turn of the request",
                                            "script": {"pre": pre, "ops": ops}, "turns_swept": turns + 3},
                                   "model": {"reads": R, "outcomes": sorted(map(str, allowed[si]))}, "impl": {"outcomes": sorted(map(str, seen.get(si, {}).keys()))}})
+    # host faults on the proxied route: the upstream mock latches a new key / clears it, THEN rejects or
+    # drops the forwarded request; every request it receives for that one client request is judged
+    flines, fmeta = [], []
+    for fault in faults:
+        for ops in ([2], [None], [None, 2]):
+            flines.append(json.dumps({"kind": "proxy", "pre": [op_json(0, pkeys), op_json(1, pkeys)], "ops": [], "steps": 0,
+                                      "up_replies": [reply_json(dict(fault, ops=ops), pkeys), reply_json(dict(fault, ops=[3]), pkeys), {"status": 200}]}))
+            fmeta.append((fault, ops))
+    fout = run_driver(ctx, exe, flines, env, "proxied host-fault runs") if flines else []
+    for (fault, ops), line, r in zip(fmeta, flines, fout):
+        psc = {"keys": pkeys, "json": json.loads(line)}
+        n_signings += 1
+        n_fault_calls += 1
+        observed = [observe(rq, pkeys) for rq in r.get("requests", [])]
+        n_requests += len(observed)
+        window = set([1] + ops + ([3] if len(observed) > 1 else []))
+        for q, oq in enumerate(observed):
+            f = judge(oq, psc, 0, 1, "proxy", window, False, "proxied request, upstream host fault %s" % json.dumps(fault), req_ix=q)
+            if f:
+                failures.append(f)
+                n_torn += 1 if f["kind"] == "torn" else 0
+        ih = [None if o is None else (o[2], o[1]) for o in observed]
+        if not r.get("ok") or ih != [(1, 1)] * model_requests["proxy"]:
+            disagreements.append({"case": {"route": "proxy", "what": "requests per proxied request under an upstream fault, and their (announced key, MAC key)", "driver_input": psc["json"]},
+                                  "model": [(1, 1)] * model_requests["proxy"], "impl": {"requests": ih, "status": r.get("status"), "error": r.get("error")}})
+
     # reads on the proxied route, inferred from the script "rotate k1 -> k2": phases new / (torn) / old
     ph0 = phases.get(0, [])
     proxy_reads = max(0, len(ph0) - 1)
@@ -421,22 +514,24 @@ def run(ctx):
         if rs != {model_reads[route]} and not any(d["case"].get("route") == route for d in disagreements):
             disagreements.append({"case": {"route": route, "what": "actor round trips per signing"}, "model": model_reads[route], "impl": sorted(rs)})
 
-    total = len(scs) + len(plines)
+    total = len(scs) + len(plines) + len(flines)
     ctx.coverage.update({
         "evaluations": total,
         "distinct_nontrivial": n_rot_during + sum(len(v) for v in seen.values()),
         "traces_validated_against_impl": total - len(disagreements),
-        "rule": "hand-polled: for each of the 4 host call sites x 3 initial states, a keeper script (rotate / clear / clear+relatch / rotate twice at one point; two operations at two points) injected after poll i for every i in 0..4 (the real futures have %s actor await points), plus random interleavings of 2-4 concurrent signers with keeper operations; proxied route: the operation injected at every scheduler turn 0..%d of a request through the real listener, %d scripts; non-trivial = signing operations during which the key slot changed (hand) + distinct outcomes per script (proxied)" % (
+        "rule": "hand-polled: for each of the 4 host call sites x 3 initial states, a keeper script (rotate / clear / clear+relatch / rotate twice at one point; two operations at two points) injected after poll i for every i in 0..4 (the real futures have %s actor await points), plus random interleavings of 2-4 concurrent signers with keeper operations; host faults: each call site's first request answered 401/403/500/503/closed/half-answered while the key is rotated / cleared / re-latched between the rejection and any follow-up (by the mock before it answers, and after the answer after j = 0..3 further polls), two rejections in a row, every request the host receives judged and counted against route_requests; proxied route: the same faults from the upstream host, and the operation injected at every scheduler turn 0..%d of a request through the real listener, %d scripts; non-trivial = signing operations during which the key slot changed (hand) + distinct outcomes per script (proxied)" % (
             sorted({r: sorted(v) for r, v in reads_seen.items()}.items()), turns + 2, len(scripts)),
         "exhaustive": False,
         "samples": samples[:4],
-        "input_distribution": {"hand_exhaustive": n_exh, "hand_random": len(scs) - n_exh, "proxied_runs": len(plines), "proxied_turns_calibrated": turns,
+        "input_distribution": {"hand_exhaustive": n_exh, "hand_random": len(scs) - n_exh - n_hand_faults, "host_fault_calls": n_fault_calls,
+                               "requests_judged": n_requests, "proxied_runs": len(plines) + len(flines), "proxied_turns_calibrated": turns,
                                "signing_operations": n_signings, "with_header": n_headers, "key_changed_during_operation": n_rot_during,
                                "torn_pairs_observed": n_torn, "actor_round_trips_per_signing": {r: sorted(v) for r, v in reads_seen.items()},
                                "model_round_trips": model_reads},
     })
     ctx.assumptions += [
         "the model is tied to the code by executing the real futures / the real listener under chosen schedules, not by translation",
+        "the host's answer is not an input of the signing code (one request per call, route_requests): checked by answering the real calls with 401/403/5xx/closed connections while the key changes; other fault shapes (timeouts, redirects, 1xx) are not scripted",
         "schedules are explored at await-point granularity on a single-threaded runtime; an actor processes one message at a time (tokio mpsc + one task), so preemption inside a handler cannot occur",
         "every await of a host-call future before its TCP connect is a key-keeper round trip (that is how round trips are counted); on the proxied route the count is inferred from the distinct outcomes of the turn-by-turn sweep",
         "HMAC-SHA256 is an arbitrary function in the theorems; the mock host recomputes it with Python's hmac/hashlib over the canonical string rebuilt from the received bytes",
